@@ -543,7 +543,7 @@ Proof.
   rewrite Hts at 1 2. rewrite render_app. unfold render at 2. cbn [flat_map tok_text]. fold (render R p t).
   rewrite (mtch_run true p t P (TPath :: R) _ HP HtP). cbn [mtch].
   assert (HmR : mtch true R (render R p t) = Some (caps_of p t R)).
-  { pose proof (mtch_run true p t R [] [] HR HtR) as H. rewrite !app_nil_r in H. exact H. }
+  { pose proof (mtch_run true p t R [] [] HR HtR) as H. cbn [mtch] in H. rewrite !app_nil_r in H. exact H. }
   rewrite (lazy_ok (mtch true R) (render R p t) (caps_of p t R) HmR p [] Hp).
   - rewrite Hts, caps_of_app. unfold caps_of at 4. cbn [filter is_lit negb map tok_text app]. reflexivity.
   - intros u1 u2 _ Hne. apply (rest_skip loff ts p t R u2 He HiR HR Hz Hne).
@@ -596,11 +596,9 @@ Theorem decode_caps_of loff ts p t :
   has TPath ts = true -> identifies ts = true -> encodable loff ts t = true ->
   decode_caps loff (caps_of p t ts) = (p, fst (trunc_start ts t), snd (trunc_start ts t)).
 Proof.
-  intros Hp Hid He. unfold decode_caps, trunc_start. cbn [fst snd].
-  rewrite cap_of_caps by reflexivity. rewrite Hp. cbn [tok_text].
-  rewrite (num_of_caps loff) by (try assumption; reflexivity).
-  rewrite (num_of_caps loff _ _ _ Ts) by (try assumption; reflexivity).
-  cbn [tok_val].
+  intros Hp Hid He. unfold decode_caps, trunc_start. cbn [fst snd]. cbv zeta.
+  rewrite !(num_of_caps loff) by (try assumption; reflexivity).
+  rewrite !cap_of_caps by reflexivity. rewrite Hp. cbn [tok_text tok_val].
   destruct (encodable_parts _ _ _ He) as (Hns & Hy & Hs & Hz & Hnz).
   assert (Hmic : (if has Tf ts then i_ns t / 1000 else 0) * 1000 = if has Tf ts then i_ns t / 1000 * 1000 else 0)
     by (destruct (has Tf ts); lia).
@@ -610,9 +608,7 @@ Proof.
   - change (0 <? -1) with false. cbv iota.
     unfold identifies in Hid. rewrite Hts in Hid. cbn [orb] in Hid. unfold has_civil in Hid.
     repeat rewrite andb_true_iff in Hid. destruct Hid as (((((H1 & H2) & H3) & H4) & H5) & H6).
-    rewrite !(num_of_caps loff) by (try assumption; reflexivity).
-    rewrite H1, H2, H3, H4, H5, H6. cbn [tok_val].
-    rewrite cap_of_caps by reflexivity. cbn [tok_text].
+    rewrite H1, H2, H3, H4, H5, H6.
     assert (Hoff : (match (if has Tz ts then Some (zone_text (i_off t)) else None) with
                     | Some z => zone_off z | None => loff end) = i_off t).
     { destruct (has Tz ts) eqn:Hhz.
@@ -631,10 +627,10 @@ Qed.
 
 Lemma count_pos_has k ts : (0 < count_tok k ts)%nat -> has k ts = true.
 Proof.
-  induction ts as [|x ts IH]; cbn [count_tok]; [lia|]. intros H. unfold has. cbn [existsb].
+  intros H. apply has_in. induction ts as [|x ts IH]; cbn [count_tok] in H; [lia|].
   destruct (tok_eqb x k) eqn:Hx.
-  - apply tok_eqb_eq in Hx. subst. now rewrite tok_eqb_refl.
-  - rewrite (IH ltac:(cbn in H; lia)). apply orb_true_r.
+  - apply tok_eqb_eq in Hx. left. exact Hx.
+  - right. apply IH. cbn in H. lia.
 Qed.
 
 (* round trip on token lists: the name Encode writes (by tokens) is recognised with that path and start *)
@@ -647,3 +643,327 @@ Proof.
   rewrite (decode_caps_of loff ts p t); [reflexivity| |exact Hid|exact He].
   apply count_pos_has. lia.
 Qed.
+
+(* ---------------------------------------------------------------- Encode: sequential ReplaceAll = by tokens *)
+
+Definition no37 (l : list Z) : Prop := Forall (fun c => c <> 37) l.
+
+Lemma fmt_fuel_digits fuel : forall n, 0 <= n -> forallb is_digit (fmt_fuel fuel n) = true.
+Proof.
+  induction fuel as [|fuel IH]; intros n Hn; [reflexivity|]. cbn [fmt_fuel].
+  destruct (Z.ltb_spec n 10).
+  - cbn [forallb]. unfold is_digit. lia.
+  - rewrite forallb_app, IH by (apply Z.div_pos; lia). cbn [forallb]. unfold is_digit.
+    pose proof (Z.mod_pos_bound n 10 ltac:(lia)). lia.
+Qed.
+
+Lemma digits_no37 l : forallb is_digit l = true -> no37 l.
+Proof.
+  intros H. apply Forall_forall. intros c Hc. rewrite forallb_forall in H. specialize (H c Hc).
+  unfold is_digit in H. lia.
+Qed.
+
+Lemma format_int_no37 n : no37 (format_int n).
+Proof.
+  unfold format_int. destruct (Z.ltb_spec n 0).
+  - constructor; [lia|]. apply digits_no37, fmt_fuel_digits. lia.
+  - apply digits_no37, fmt_fuel_digits. lia.
+Qed.
+
+Lemma leading_zeros_no37 v k : no37 (leading_zeros v k).
+Proof.
+  unfold leading_zeros. destruct (k <=? length (format_int v))%nat; [apply format_int_no37|].
+  apply Forall_app. split; [|apply format_int_no37].
+  apply Forall_forall. intros c Hc. apply repeat_spec in Hc. lia.
+Qed.
+
+Lemma zone_text_no37 off : no37 (zone_text off).
+Proof.
+  unfold zone_text. destruct (off =? 0); [constructor; [lia|constructor]|].
+  constructor; [destruct (0 <? off); lia|]. apply Forall_app. split; apply leading_zeros_no37.
+Qed.
+
+Lemma tok_text_no37 p t k : no37 p -> k <> TLit 37 -> no37 (tok_text p t k).
+Proof.
+  intros Hp Hk. destruct k; cbn [tok_text];
+    try apply leading_zeros_no37; try apply format_int_no37; try apply zone_text_no37; try exact Hp.
+  constructor; [intros ->; now apply Hk|constructor].
+Qed.
+
+Inductive item := IX (l : list Z) | IT (t : tok).
+Definition item_text (i : item) : list Z := match i with IX l => l | IT t => tok_src t end.
+Definition flat (its : list item) : list Z := flat_map item_text its.
+Definition item_ok (i : item) : Prop := match i with IX l => no37 l | IT t => is_lit t = false end.
+Definition pass1 (k : tok) (rep : list Z) (i : item) : item :=
+  match i with IT t => if tok_eqb t k then IX rep else IT t | IX l => IX l end.
+
+Lemma prefixb_app a b : prefixb a (a ++ b) = true.
+Proof. induction a as [|x a IH]; [reflexivity|]. cbn. now rewrite Z.eqb_refl, IH. Qed.
+
+Lemma repl_skip pat rep l : forall s, repl pat rep (length l) (l ++ s) = repl pat rep 0 s.
+Proof. induction l as [|x l IH]; intros s; [reflexivity|]. cbn [length app repl]. apply IH. Qed.
+
+Lemma repl_hit pat rep s : pat <> [] -> repl pat rep 0 (pat ++ s) = rep ++ repl pat rep 0 s.
+Proof.
+  destruct pat as [|x pat]; [contradiction|]. intros _.
+  change ((x :: pat) ++ s) with (x :: pat ++ s). cbn [repl].
+  change (x :: pat ++ s) with ((x :: pat) ++ s). rewrite prefixb_app. cbn [length].
+  replace (S (length pat) - 1)%nat with (length pat) by lia. rewrite repl_skip. reflexivity.
+Qed.
+
+Lemma repl_plain k rep l : is_lit k = false -> no37 l -> forall s,
+  repl (tok_src k) rep 0 (l ++ s) = l ++ repl (tok_src k) rep 0 s.
+Proof.
+  intros Hk Hl s. induction Hl as [|c l Hc Hl IH]; [reflexivity|].
+  cbn [app repl]. assert (Hp : prefixb (tok_src k) (c :: l ++ s) = false).
+  { destruct k; try discriminate; cbn [tok_src prefixb]; destruct (Z.eqb_spec 37 c); try lia; reflexivity. }
+  rewrite Hp, IH. reflexivity.
+Qed.
+
+Lemma tok_src_split t : is_lit t = false -> exists tl, tok_src t = 37 :: tl /\ no37 tl.
+Proof.
+  destruct t; try discriminate; intros _; eexists; (split; [reflexivity|]);
+    repeat constructor; lia.
+Qed.
+
+Lemma prefixb_other k t s : is_lit k = false -> is_lit t = false -> tok_eqb t k = false ->
+  prefixb (tok_src k) (tok_src t ++ s) = false.
+Proof. destruct k, t; try discriminate; intros _ _ _; reflexivity. Qed.
+
+Lemma repl_items k rep its : is_lit k = false -> Forall item_ok its ->
+  repl (tok_src k) rep 0 (flat its) = flat (map (pass1 k rep) its).
+Proof.
+  intros Hk Hok. induction Hok as [|i its Hi Hok IH]; [reflexivity|].
+  unfold flat. cbn [flat_map map]. fold (flat its). fold (flat (map (pass1 k rep) its)).
+  destruct i as [l|t]; cbn [item_text pass1 item_ok] in *.
+  - rewrite repl_plain by assumption. now rewrite IH.
+  - destruct (tok_eqb t k) eqn:Htk.
+    + apply tok_eqb_eq in Htk. subst t. cbn [item_text].
+      rewrite repl_hit by (destruct k; discriminate). now rewrite IH.
+    + cbn [item_text]. pose proof (prefixb_other k t (flat its) Hk Hi Htk) as Hp.
+      destruct (tok_src_split t Hi) as (tl & Hsrc & Htl). rewrite Hsrc in *. cbn [app repl] in *.
+      rewrite Hp. rewrite repl_plain by assumption. now rewrite IH.
+Qed.
+
+Lemma pass1_ok k rep i : no37 rep -> item_ok i -> item_ok (pass1 k rep i).
+Proof. intros Hr Hi. destruct i as [l|t]; cbn [pass1]; [exact Hi|]. destruct (tok_eqb t k); [exact Hr|exact Hi]. Qed.
+
+Definition items_of (ts : list tok) : list item := map (fun t => match t with TLit c => IX [c] | _ => IT t end) ts.
+
+(* tokenize is a left inverse of writing the tokens out *)
+Lemma tokenize_aux_skip : forall s n, tokenize_aux n s = tokenize_aux 0 (skipn n s).
+Proof.
+  induction s as [|c r IH]; intros n; [destruct n; reflexivity|].
+  destruct n as [|n]; [reflexivity|]. cbn [tokenize_aux skipn]. apply IH.
+Qed.
+
+Lemma prefixb_split a : forall s, prefixb a s = true -> s = a ++ skipn (length a) s.
+Proof.
+  induction a as [|x a IH]; intros s H; [reflexivity|]. destruct s as [|y s]; [discriminate|].
+  cbn in H. apply andb_true_iff in H. destruct H as [Hxy H]. apply Z.eqb_eq in Hxy. subst y.
+  cbn. f_equal. apply IH, H.
+Qed.
+
+Lemma token_at_some s t : token_at s = Some t -> is_lit t = false /\ prefixb (tok_src t) s = true.
+Proof.
+  unfold token_at. intros H. apply find_some in H. destruct H as [Hin Hp]. split; [|exact Hp].
+  unfold ptoks in Hin. cbn in Hin. intuition (subst; reflexivity).
+Qed.
+
+Lemma detokenize_len n : forall f, (length f <= n)%nat -> flat_map tok_src (tokenize f) = f.
+Proof.
+  induction n as [|n IH]; intros f Hl.
+  - destruct f; [reflexivity|cbn in Hl; lia].
+  - destruct f as [|c r]; [reflexivity|]. unfold tokenize. cbn [tokenize_aux].
+    destruct (token_at (c :: r)) as [t|] eqn:Ht.
+    + destruct (token_at_some _ _ Ht) as [Hnl Hp]. pose proof (prefixb_split _ _ Hp) as Hs.
+      destruct (tok_src_split t Hnl) as (tl & Hsrc & _).
+      rewrite tokenize_aux_skip. cbn [flat_map]. rewrite Hsrc in Hs. cbn [length app skipn] in Hs.
+      inversion Hs as [[Hc Hr]]. rewrite Hsrc. cbn [length].
+      replace (S (length tl) - 1)%nat with (length tl) by lia.
+      fold (tokenize (skipn (length tl) r)). rewrite IH.
+      * cbn [app]. congruence.
+      * rewrite skipn_length. cbn in Hl. rewrite <- Hr. lia.
+    + cbn [flat_map tok_src app]. fold (tokenize r). rewrite IH; [reflexivity|cbn in Hl; lia].
+Qed.
+
+Lemma detokenize f : flat_map tok_src (tokenize f) = f.
+Proof. apply (detokenize_len (length f)). lia. Qed.
+
+Lemma flat_items_of ts : flat (items_of ts) = flat_map tok_src ts.
+Proof.
+  induction ts as [|t ts IH]; [reflexivity|]. unfold flat, items_of in *. cbn [map flat_map].
+  rewrite IH. destruct t; reflexivity.
+Qed.
+
+Lemma items_of_ok ts : forallb (fun t => negb (tok_eqb t (TLit 37))) ts = true -> Forall item_ok (items_of ts).
+Proof.
+  intros H. unfold items_of. apply Forall_forall. intros i Hi. apply in_map_iff in Hi.
+  destruct Hi as (t & <- & Hin). rewrite forallb_forall in H. specialize (H t Hin).
+  destruct t; try reflexivity. cbn [item_ok]. constructor; [|constructor].
+  cbn in H. destruct (Z.eqb_spec c 37); [discriminate|assumption].
+Qed.
+
+Theorem encode_go_tokens f p t :
+  forallb (fun k => negb (tok_eqb k (TLit 37))) (tokenize f) = true -> no37 p ->
+  encode_go f p t = encode f p t.
+Proof.
+  intros Hf Hp. unfold encode_go, encode.
+  pose proof (items_of_ok _ Hf) as Hok0. rewrite <- (detokenize f) at 1. rewrite <- flat_items_of.
+  (* push the ten passes through *)
+  assert (Hfold : forall ks its, Forall item_ok its -> Forall (fun k => is_lit k = false) ks ->
+            fold_left (fun s k => repl (tok_src k) (tok_text p t k) 0 s) ks (flat its) =
+            flat (fold_left (fun its k => map (pass1 k (tok_text p t k)) its) ks its)).
+  { induction ks as [|k ks IHk]; intros its Hok Hks; [reflexivity|].
+    inversion Hks as [|? ? Hk Hks']; subst. cbn [fold_left]. rewrite repl_items by assumption.
+    apply IHk; [|exact Hks'].
+    apply Forall_forall. intros i Hi. apply in_map_iff in Hi. destruct Hi as (j & <- & Hj).
+    apply pass1_ok; [apply tok_text_no37; [exact Hp|destruct k; discriminate]|].
+    rewrite Forall_forall in Hok. now apply Hok. }
+  rewrite Hfold; [|exact Hok0|unfold ptoks; repeat constructor].
+  (* item by item *)
+  clear Hfold Hok0. unfold render. induction (tokenize f) as [|k ts IH]; [reflexivity|].
+  cbn [forallb] in Hf. apply andb_true_iff in Hf. destruct Hf as [Hk Hf].
+  assert (Hcons : forall ks i its, fold_left (fun its k => map (pass1 k (tok_text p t k)) its) ks (i :: its) =
+            fold_left (fun i k => pass1 k (tok_text p t k) i) ks i ::
+            fold_left (fun its k => map (pass1 k (tok_text p t k)) its) ks its).
+  { induction ks as [|k' ks IHk]; intros i its; [reflexivity|]. cbn [fold_left map]. apply IHk. }
+  unfold items_of in *. cbn [map]. rewrite Hcons. unfold flat in *. cbn [flat_map]. rewrite (IH Hf). f_equal.
+  destruct k; reflexivity.
+Qed.
+
+Lemma name_ok_no37 p : name_ok p = true -> no37 p.
+Proof.
+  intros H. destruct (name_ok_parts p H) as [_ H37]. apply Forall_forall. intros c Hc.
+  rewrite forallb_forall in H37. specialize (H37 c Hc). destruct (Z.eqb_spec c 37); [discriminate|assumption].
+Qed.
+
+Lemma valid_name_ok p : valid_name p = true -> name_ok p = true.
+Proof.
+  unfold valid_name, name_ok. rewrite andb_true_iff. intros [_ H]. rewrite forallb_forall in *.
+  intros c Hc. specialize (H c Hc). unfold name_char, is_digit in H. lia.
+Qed.
+
+(* C26, first half *)
+Theorem roundtrip loff f p t :
+  wf_format f = true -> name_ok p = true -> identifies (tokenize f) = true -> encodable loff (tokenize f) t = true ->
+  decode loff f (encode_go f p t) =
+  Some (p, fst (trunc_start (tokenize f) t), snd (trunc_start (tokenize f) t)).
+Proof.
+  intros Hwf Hp Hid He. unfold wf_format in Hwf.
+  rewrite encode_go_tokens; [|exact (proj1 (wf_toks_parts _ Hwf))|exact (name_ok_no37 p Hp)].
+  unfold decode, encode. apply roundtrip_toks; assumption.
+Qed.
+
+(* ---------------------------------------------------------------- a match covers the whole name *)
+
+Lemma lazy_sound (m : list Z -> option (list (tok * list Z))) : forall s acc caps,
+  lazy_path m acc s = Some caps ->
+  exists u s' c', s = u ++ s' /\ caps = (TPath, rev acc ++ u) :: c' /\ m s' = Some c' /\
+                  forallb (fun b => negb (b =? 10)) u = true.
+Proof.
+  induction s as [|c r IH]; intros acc caps H; cbn [lazy_path] in H.
+  - destruct (m []) as [c'|] eqn:Hm; [|discriminate]. inversion H; subst.
+    exists [], [], c'. cbn [app]. rewrite !app_nil_r. split; [reflexivity|]. split; [reflexivity|]. split; [exact Hm|reflexivity].
+  - destruct (m (c :: r)) as [c'|] eqn:Hm.
+    + inversion H; subst. exists [], (c :: r), c'. cbn [app]. rewrite !app_nil_r.
+      split; [reflexivity|]. split; [reflexivity|]. split; [exact Hm|reflexivity].
+    + destruct (c =? 10) eqn:Hc; [discriminate|].
+      destruct (IH _ _ H) as (u & s' & c' & -> & -> & Hm' & Hu).
+      exists (c :: u), s', c'. repeat split; [cbn [rev]; now rewrite <- app_assoc|exact Hm'|].
+      cbn [forallb]. now rewrite Hc, Hu.
+Qed.
+
+Definition nonlit (ts : list tok) : list tok := filter (fun k => negb (is_lit k)) ts.
+
+Theorem mtch_sound ts : forall s caps, mtch true ts s = Some caps ->
+  s = fill ts caps /\ forallb cap_shape caps = true /\ map fst caps = nonlit ts.
+Proof.
+  induction ts as [|t K IH]; intros s caps H.
+  - cbn in H. destruct s; [|discriminate]. inversion H; subst. repeat split.
+  - destruct (is_lit t) eqn:Hl.
+    + destruct t; try discriminate. cbn [mtch] in H. destruct s as [|c' r]; [discriminate|].
+      destruct (Z.eqb_spec c' c) as [->|]; [|discriminate].
+      destruct (IH _ _ H) as (-> & Hs & Hf). repeat split; assumption.
+    + destruct (tok_eqb t TPath) eqn:Hp.
+      * apply tok_eqb_eq in Hp. subst t. cbn [mtch] in H.
+        destruct (lazy_sound _ _ _ _ H) as (u & s' & c' & -> & -> & Hm & Hu).
+        destruct (IH _ _ Hm) as (-> & Hs & Hf). cbn [rev app fill forallb map fst].
+        repeat split; [|unfold nonlit in *; cbn [filter is_lit negb]; now rewrite Hf].
+        unfold cap_shape at 1. cbn [fst snd]. now rewrite Hu, Hs.
+      * assert (Hnp : t <> TPath) by (intros ->; discriminate).
+        rewrite mtch_tok in H by assumption.
+        destruct (take_tok t s) as [[txt r]|] eqn:Ht; [|discriminate].
+        destruct (mtch true K r) as [c'|] eqn:Hm; [|discriminate]. inversion H; subst.
+        destruct (IH _ _ Hm) as (-> & Hs & Hf).
+        assert (Hshape : s = txt ++ fill K c' /\ cap_shape (t, txt) = true).
+        { destruct (digit_tok t) eqn:Hd.
+          - rewrite take_tok_digits in Ht by exact Hd.
+            destruct (take_digits_some _ _ _ _ Ht) as (-> & Hlen & Hdg). split; [reflexivity|].
+            destruct t; try discriminate; unfold cap_shape; cbn [fst snd tok_width] in *;
+              rewrite Hlen, Hdg; reflexivity.
+          - destruct t; try discriminate; try contradiction. cbn [take_tok] in Ht.
+            exact (take_zone_some _ _ _ Ht). }
+        destruct Hshape as [-> Hsh]. cbn [forallb map fst]. rewrite Hsh, Hs.
+        repeat split; [destruct t; try discriminate; try contradiction; reflexivity|].
+        unfold nonlit in *. cbn [filter]. rewrite Hl. cbn [negb]. now rewrite Hf.
+Qed.
+
+(* C26, second half (shape strength) *)
+Theorem whole_name loff f v r : decode loff f v = Some r ->
+  exists caps, v = fill (tokenize f) caps /\ forallb cap_shape caps = true
+               /\ map fst caps = nonlit (tokenize f) /\ r = decode_caps loff caps.
+Proof.
+  unfold decode, decode_toks. destruct (mtch true (tokenize f) v) as [caps|] eqn:Hm; [|discriminate].
+  intros H; inversion H; subst. destruct (mtch_sound _ _ _ Hm) as (Hv & Hs & Hf).
+  exists caps. repeat split; assumption.
+Qed.
+
+(* ---------------------------------------------------------------- refutations *)
+
+(* the code before fix 2b44fe1: a name with a foreign suffix is recognised *)
+Definition f_unanch : list Z := [37;112;97;116;104; 47; 37;115; 46; 109].       (* %path/%s.m *)
+Definition v_unanch : list Z := [97; 47; 49;55;48;48;48;48;48;48;48;48; 46; 109; 126].  (* a/1700000000.m~ *)
+
+Theorem unanchored_refuted :
+  decode_unanchored 0 f_unanch v_unanch = Some ([97], 1700000000, 0) /\
+  (forall p t, v_unanch <> encode f_unanch p t) /\ decode 0 f_unanch v_unanch = None.
+Proof.
+  split; [vm_compute; reflexivity|]. split; [|vm_compute; reflexivity].
+  intros p t H. unfold encode in H.
+  assert (Htk : tokenize f_unanch = [TPath; TLit 47; Ts; TLit 46] ++ [TLit 109]) by (vm_compute; reflexivity).
+  rewrite Htk, render_app in H. unfold render at 2 in H. cbn [flat_map tok_text app] in H.
+  change v_unanch with ([97; 47; 49;55;48;48;48;48;48;48;48;48; 46; 109] ++ [126]) in H.
+  apply app_inj_tail in H. destruct H as [_ H]. discriminate.
+Qed.
+
+(* the anchored code still recognises names whose fields Encode never writes (month 13) *)
+Definition f_month : list Z := [37;109; 95; 37;112;97;116;104].  (* %m_%path *)
+Definition v_month : list Z := [49;51; 95; 97].                  (* 13_a *)
+
+Theorem strict_whole_name_refuted :
+  (exists r, decode 0 f_month v_month = Some r) /\ forall p t, v_month <> encode f_month p t.
+Proof.
+  split; [eexists; vm_compute; reflexivity|].
+  intros p t H. unfold encode in H.
+  assert (Htk : tokenize f_month = [Tmo; TLit 95; TPath]) by (vm_compute; reflexivity).
+  rewrite Htk in H. unfold render in H. cbn [flat_map tok_text] in H.
+  pose proof (civil_of_unix_ranges (i_unix t) (i_off t)) as Hr. cbv zeta in Hr.
+  set (m := c_month (civil_of_unix (i_unix t) (i_off t))) in *.
+  assert (E2 : 10 ^ Z.of_nat 2 = 100) by reflexivity.
+  rewrite (leading_zeros_pad 2) in H by (rewrite ?E2; lia).
+  cbn [pad app] in H. unfold v_month in H.
+  pose proof (f_equal (fun l => nth 0 l 0) H) as H1. pose proof (f_equal (fun l => nth 1 l 0) H) as H2.
+  cbn [nth] in H1, H2. clear H.
+  pose proof (Z.div_mod m 10 ltac:(lia)). pose proof (Z.div_mod (m / 10) 10 ltac:(lia)).
+  pose proof (Z.mod_pos_bound m 10 ltac:(lia)). pose proof (Z.mod_pos_bound (m / 10) 10 ltac:(lia)). lia.
+Qed.
+
+(* a format with two %path (accepted by the configuration check) does not round-trip *)
+Definition f_two : list Z := [37;112;97;116;104; 47; 37;112;97;116;104; 95; 37;115].  (* %path/%path_%s *)
+
+Theorem two_paths_refuted :
+  let p := [97; 47; 98] in let t := mkI 1700000000 0 0 in
+  valid_name p = true /\ identifies (tokenize f_two) = true /\ encodable 0 (tokenize f_two) t = true /\
+  decode 0 f_two (encode_go f_two p t) = Some ([98; 47; 97; 47; 98], 1700000000, 0).
+Proof. vm_compute. repeat split. Qed.
